@@ -133,10 +133,32 @@ fn remove_entry(root: &V, parent: &Path, idx: usize) -> Option<V> {
     })
 }
 
-fn dup_entry(root: &V, parent: &Path, idx: usize, at_end: bool) -> Option<V> {
+/// Duplicate entry `idx`. `variant`: 0 = exact copy; 1 = the FIRST occurrence holds null and the second the
+/// original value; 2 = the second occurrence holds a different value of the same kind.
+fn dup_entry(root: &V, parent: &Path, idx: usize, at_end: bool, variant: u8) -> Option<V> {
     replace(root, parent, |old| match old {
         V::M(mut m) => {
-            let e = m[idx].clone();
+            let mut e = m[idx].clone();
+            match variant {
+                1 => m[idx].1 = V::Null,
+                2 => {
+                    e.1 = match e.1 {
+                        V::Bool(b) => V::Bool(!b),
+                        V::U(n) => V::U(n ^ 1),
+                        V::N(n) => V::N(n ^ 1),
+                        V::B(mut b) => {
+                            b.push(0);
+                            V::B(b)
+                        }
+                        V::T(mut b) => {
+                            b.push(b'x');
+                            V::T(b)
+                        }
+                        other => other,
+                    }
+                }
+                _ => {}
+            }
             if at_end {
                 m.push(e);
             } else {
@@ -236,19 +258,25 @@ pub fn single_faults(cmd: u8, schema: &MapSchema, root: &V, rng: &mut Rng) -> Ve
                     if at_end && i + 1 == entries.len() {
                         continue; // same message as the adjacent duplicate
                     }
-                    if let Some(r) = dup_entry(root, &mp, i, at_end) {
-                        cases.push(Case {
-                            class: "dup_key",
-                            site: format!("{}#{}", path_str(&mp), cbor::show(&entries[i].0)),
-                            desc: format!(
-                                "duplicate key {} of map {} ({})",
-                                cbor::show(&entries[i].0),
-                                path_str(&mp),
-                                if at_end { "at end" } else { "adjacent" }
-                            ),
-                            delivered: msg(cmd, &r),
-                            expect: Expect::MustReject(ST_INVALID_CBOR),
-                        });
+                    for variant in 0..3u8 {
+                        if variant == 2 && !matches!(entries[i].1, V::Bool(_) | V::U(_) | V::N(_) | V::B(_) | V::T(_)) {
+                            continue;
+                        }
+                        if let Some(r) = dup_entry(root, &mp, i, at_end, variant) {
+                            cases.push(Case {
+                                class: "dup_key",
+                                site: format!("{}#{}", path_str(&mp), cbor::show(&entries[i].0)),
+                                desc: format!(
+                                    "duplicate key {} of map {} ({}, {})",
+                                    cbor::show(&entries[i].0),
+                                    path_str(&mp),
+                                    if at_end { "at end" } else { "adjacent" },
+                                    ["same value twice", "first occurrence null", "second occurrence with another value"][variant as usize]
+                                ),
+                                delivered: msg(cmd, &r),
+                                expect: Expect::MustReject(ST_INVALID_CBOR),
+                            });
+                        }
                     }
                 }
             }
